@@ -8,6 +8,13 @@
 // an arity-indexed library function), and one registration line that instantiates the site
 // with pairwise distinct types (T1..Tn) and with one common type (S..S).
 //
+// Sites are two-phase: the construction (curried function, lifted function, builder, type-class
+// instance) is made when the site function is called, the observations are registered with
+// c.Obs and run after BOTH generations of the case have been constructed (see ../main.go).
+// Observations of members whose result can be applied more than once end with forks: the
+// generic helpers rt.Fork<N> (curried results, every level), builderForks (builder chains,
+// every stage) and reuse (one constructed function, two argument vectors; y<k> = c.Y[k]).
+//
 // The arity ranges mirror genfp.MaxFunc (10, exclusive), genfp.MaxProduct (22, exclusive)
 // and genfp.MaxCompose (6, exclusive) plus the hand-written low-arity members next to the
 // templates (Tuple1, curried.Flip, fp.Compose, option.Method1/2, ...). The harness does not
@@ -59,6 +66,7 @@ type site struct {
 	TP     int // number of type parameters A1..A<TP>
 	NV     int // values a1..a<NV> declared from c.v
 	NU     int // values b1..b<NU> declared from c.u (second operand)
+	NY     int // values y1..y<NY> declared from c.Y (alternative arguments of forked applications)
 	Pos    int // number of argument positions (n of the evidence pair)
 	Call   string
 	Ctor   string
@@ -68,6 +76,8 @@ type site struct {
 	M      *monad
 	Kind   string
 	Steps  []step
+	// ForkLevels: the stages at which a builder chain is forked (nil = every stage)
+	ForkLevels []int
 }
 
 func (s *site) Fn() string {
@@ -175,6 +185,18 @@ func cons(is []int, tail string) string {
 func consF(a, b int) string { return cons(seq(a, b), "hlist.Nil") }
 func consR(b, a int) string { return cons(rseq(b, a), "hlist.Nil") }
 
+func curB(a, b int) string {
+	out := "R"
+	for k := b; k >= a; k-- {
+		out = fmt.Sprintf("fp.Func1[B%d, %s]", k, out)
+	}
+	return out
+}
+
+func pccall(p string, a, b int) string {
+	return mapJoin(seq(a, b), "", func(k int) string { return fmt.Sprintf("(%s%d)", p, k) })
+}
+
 func cur(a, b int, r string) string {
 	out := r
 	for k := b; k >= a; k-- {
@@ -234,65 +256,153 @@ func composeArgs(call string, n int) string {
 	})
 }
 
-// chain renders the builder method chain of a site.
-func chain(s *site) string {
+// stepCall renders one builder method call ".M(...)" of step st; name(k) is the variable that
+// holds the argument of position k on this line of applications (a<k> or, on a forked
+// continuation, y<k>).
+func stepCall(s *site, st step, name func(int) string) string {
 	m := s.M
 	var b strings.Builder
-	for _, st := range s.Steps {
-		k := st.K
-		a := fmt.Sprintf("a%d", k)
-		A := fmt.Sprintf("A%d", k)
-		b.WriteString(".\n\t\t")
-		switch st.Method {
-		case "Ap":
-			fmt.Fprintf(&b, "Ap(%s)", a)
-		case "ApOption":
-			fmt.Fprintf(&b, "ApOption(fp.Some(%s))", a)
-		case "ApTry":
-			fmt.Fprintf(&b, "ApTry(fp.Success(%s))", a)
-		case "ApFuture":
-			fmt.Fprintf(&b, "ApFuture(future.Successful(%s))", a)
-		case "ApFunc":
-			fmt.Fprintf(&b, "ApFunc(func() %s { return %s })", A, a)
-		case "ApOptionFunc":
-			fmt.Fprintf(&b, "ApOptionFunc(func() fp.Option[%s] { return fp.Some(%s) })", A, a)
-		case "ApTryFunc":
-			fmt.Fprintf(&b, "ApTryFunc(func() fp.Try[%s] { return fp.Success(%s) })", A, a)
-		case "ApFutureFunc":
-			fmt.Fprintf(&b, "ApFutureFunc(func() fp.Future[%s] { return future.Successful(%s) })", A, a)
-		case "Map", "FlatMap":
-			ret, val := A, a
-			if st.Method == "FlatMap" {
-				ret, val = fmt.Sprintf("%s[%s]", m.Ty, A), fmt.Sprintf("%s(%s)", m.Pure, a)
-			}
-			if k == 1 {
-				fmt.Fprintf(&b, "%s(func(_ hlist.Nil) %s { return %s })", st.Method, ret, val)
-			} else {
-				fmt.Fprintf(&b, "%s(func(h A%d) %s { c.Prev(%d, string(h), string(a%d)); return %s })", st.Method, k-1, ret, k, k-1, val)
-			}
-		case "HListMap", "HListFlatMap":
-			ret, val := A, a
-			if st.Method == "HListFlatMap" {
-				ret, val = fmt.Sprintf("%s[%s]", m.Ty, A), fmt.Sprintf("%s(%s)", m.Pure, a)
-			}
-			if k == 1 {
-				fmt.Fprintf(&b, "%s(func(_ hlist.Nil) %s { return %s })", st.Method, ret, val)
-			} else {
-				fmt.Fprintf(&b, "%s(func(h %s) %s { c.Vec(\"callback-hlist\", Hl%d[%s](h), %s); return %s })",
-					st.Method, consR(k-1, 1), ret, k-1, TAr(k-1, 1), strsr(k-1, 1), val)
-			}
-		default:
-			panic("unknown builder method " + st.Method)
+	k := st.K
+	a := name(k)
+	A := fmt.Sprintf("A%d", k)
+	nstrsr := func(hi, lo int) string {
+		return mapJoin(rseq(hi, lo), ", ", func(i int) string { return "string(" + name(i) + ")" })
+	}
+	switch st.Method {
+	case "Ap":
+		fmt.Fprintf(&b, "Ap(%s)", a)
+	case "ApOption":
+		fmt.Fprintf(&b, "ApOption(fp.Some(%s))", a)
+	case "ApTry":
+		fmt.Fprintf(&b, "ApTry(fp.Success(%s))", a)
+	case "ApFuture":
+		fmt.Fprintf(&b, "ApFuture(future.Successful(%s))", a)
+	case "ApFunc":
+		fmt.Fprintf(&b, "ApFunc(func() %s { return %s })", A, a)
+	case "ApOptionFunc":
+		fmt.Fprintf(&b, "ApOptionFunc(func() fp.Option[%s] { return fp.Some(%s) })", A, a)
+	case "ApTryFunc":
+		fmt.Fprintf(&b, "ApTryFunc(func() fp.Try[%s] { return fp.Success(%s) })", A, a)
+	case "ApFutureFunc":
+		fmt.Fprintf(&b, "ApFutureFunc(func() fp.Future[%s] { return future.Successful(%s) })", A, a)
+	case "Map", "FlatMap":
+		ret, val := A, a
+		if st.Method == "FlatMap" {
+			ret, val = fmt.Sprintf("%s[%s]", m.Ty, A), fmt.Sprintf("%s(%s)", m.Pure, a)
 		}
+		if k == 1 {
+			fmt.Fprintf(&b, "%s(func(_ hlist.Nil) %s { return %s })", st.Method, ret, val)
+		} else {
+			fmt.Fprintf(&b, "%s(func(h A%d) %s { c.Prev(%d, string(h), string(%s)); return %s })", st.Method, k-1, ret, k, name(k-1), val)
+		}
+	case "HListMap", "HListFlatMap":
+		ret, val := A, a
+		if st.Method == "HListFlatMap" {
+			ret, val = fmt.Sprintf("%s[%s]", m.Ty, A), fmt.Sprintf("%s(%s)", m.Pure, a)
+		}
+		if k == 1 {
+			fmt.Fprintf(&b, "%s(func(_ hlist.Nil) %s { return %s })", st.Method, ret, val)
+		} else {
+			fmt.Fprintf(&b, "%s(func(h %s) %s { c.Vec(\"callback-hlist\", Hl%d[%s](h), %s); return %s })",
+				st.Method, consR(k-1, 1), ret, k-1, TAr(k-1, 1), nstrsr(k-1, 1), val)
+		}
+	default:
+		panic("unknown builder method " + st.Method)
+	}
+	return "." + b.String()
+}
+
+func aName(k int) string { return fmt.Sprintf("a%d", k) }
+
+// chain renders the whole builder method chain of a site (straight-line application).
+func chain(s *site) string {
+	var b strings.Builder
+	for _, st := range s.Steps {
+		b.WriteString(".\n\t\t\t")
+		b.WriteString(stepCall(s, st, aName)[1:])
 	}
 	return b.String()
+}
+
+func wrapOf(m *monad) string {
+	if m == mOption {
+		return "WrapSome"
+	}
+	return "WrapSuccess"
+}
+
+// builderForks renders the forks of a builder chain: at every stage L the builder reached by
+// the applications a1..a(L-1) is applied twice, to a<L> and to y<L>; both continuations are
+// completed (a.. / y..) by the same methods, in both orders (rt.Fork).
+func builderForks(s *site) string {
+	n := s.N
+	var b strings.Builder
+	for k := 1; k < n; k++ {
+		fmt.Fprintf(&b, "\t\tb%d := b%d%s\n", k, k-1, stepCall(s, s.Steps[k-1], aName))
+	}
+	for L := 1; L <= n; L++ {
+		if !s.forkAt(L) {
+			continue
+		}
+		yn := func(k int) string {
+			if k >= L {
+				return fmt.Sprintf("y%d", k)
+			}
+			return fmt.Sprintf("a%d", k)
+		}
+		fin1, fin2 := "q1", "q2"
+		for k := L + 1; k <= n; k++ {
+			fin1 += stepCall(s, s.Steps[k-1], aName)
+			fin2 += stepCall(s, s.Steps[k-1], yn)
+		}
+		fmt.Fprintf(&b, "\t\t{\n\t\t\tn0 := c.Mark()\n\t\t\tq1 := b%d%s\n\t\t\tq2 := b%d%s\n", L-1, stepCall(s, s.Steps[L-1], aName), L-1, stepCall(s, s.Steps[L-1], yn))
+		fmt.Fprintf(&b, "\t\t\tc.Fork(n0, %d, func() string { return %s(%s) }, func() string { return %s(%s) }, c.ForkVec(Pos(%d), 0), c.ForkVec(Pos(%d), %d), %s)\n\t\t}\n",
+			L, s.M.Show, fin1, s.M.Show, fin2, n, n, L, wrapOf(s.M))
+	}
+	return b.String()
+}
+
+// forkAt: is the builder chain of s forked at stage L? (all stages; see ForkLevels)
+func (s *site) forkAt(L int) bool {
+	if s.ForkLevels == nil {
+		return true
+	}
+	for _, l := range s.ForkLevels {
+		if l == L {
+			return true
+		}
+	}
+	return false
+}
+
+// reuse renders one rt.Fork of "one constructed function used twice": expr is a Go
+// expression of type string in which $ALL / $REV / $TAIL / $PURES stand for the argument
+// lists a1..aN / aN..a1 / a2..aN / pure(a1)..pure(aN); it is rendered once over a.. and once over y...
+func reuse(s *site, expr, wrap string) string {
+	n := s.N
+	render := func(p string) string {
+		r := strings.NewReplacer(
+			"$ALL", pargs(p, 1, n),
+			"$REV", mapJoin(rseq(n, 1), ", ", pfx(p)),
+			"$TAIL", pargs(p, 2, n),
+			"$PURES", func() string {
+				if s.M == nil {
+					return ""
+				}
+				return mapJoin(seq(1, n), ", ", func(k int) string { return fmt.Sprintf("%s(%s%d)", s.M.Pure, p, k) })
+			}(),
+		)
+		return r.Replace(expr)
+	}
+	return fmt.Sprintf("c.Fork(c.Mark(), 0, func() string { return %s }, func() string { return %s }, c.ForkVec(Pos(%d), 0), c.ForkVec(Pos(%d), 1), %s)",
+		render("a"), render("y"), n, n, wrap)
 }
 
 var funcs = template.FuncMap{
 	"seq": seq, "rseq": rseq, "TA": TA, "TAr": TAr, "args": args, "argsr": argsr, "pargs": pargs,
 	"strs": strs, "strsr": strsr, "pstrs": pstrs, "decl": decl, "adecl": adecl, "ccall": ccall, "tps": tps, "inst": inst,
 	"consF": consF, "consR": consR, "cur": cur, "nest": nest, "joinPlus": joinPlus, "nestedSteps": nestedSteps,
-	"pures": pures, "insts": insts, "posCalls": posCalls, "funcConv": funcConv, "composeArgs": composeArgs, "chain": chain,
+	"pures": pures, "insts": insts, "posCalls": posCalls, "funcConv": funcConv, "composeArgs": composeArgs, "chain": chain, "builderForks": builderForks, "curB": curB, "pccall": pccall, "reuse": reuse, "wrapOf": wrapOf,
 	"inc": func(i int) int { return i + 1 }, "dec": func(i int) int { return i - 1 },
 	"xstrs": func(a, b int) string { return pstrs("x", a, b) },
 	"bargs": func(a, b int) string { return pargs("b", a, b) },
@@ -312,6 +422,9 @@ func {{.Fn}}{{tps .TP}}(c *Cx) {
 {{- end}}
 {{- range $k := seq 1 .NU}}
 	b{{$k}} := A{{$k}}(c.U[{{$k}}])
+{{- end}}
+{{- range $k := seq 1 .NY}}
+	y{{$k}} := A{{$k}}(c.Y[{{$k}}])
 {{- end}}
 {{- end}}
 
@@ -367,22 +480,34 @@ func {{.Fn}}{{tps .TP}}(c *Cx) {
 {{end}}
 
 {{define "as_curried"}}{{template "site" .}}{{template "recf" .}}
-	var got Res = as.Curried{{.N}}(f){{ccall 1 .N}}
-	c.Result(string(got), want)
+	cf := as.Curried{{.N}}(f)
+	c.Obs(func() {
+		var got Res = cf{{ccall 1 .N}}
+		c.Result(string(got), want)
+		Fork{{.N}}(c, cf, Pos({{.N}}), ShowRes, nil)
+	})
 }
 {{end}}
 
 {{define "as_untupled"}}{{template "site" .}}
 	f := func(t fp.Tuple{{.N}}{{inst .N}}) Res { return c.Call(Tup{{.N}}{{inst .N}}(t)...) }
 	want := c.Want({{strs 1 .N}})
-	var got Res = as.UnTupled{{.N}}(f)({{args 1 .N}})
-	c.Result(string(got), want)
+	uf := as.UnTupled{{.N}}(f)
+	c.Obs(func() {
+		var got Res = uf({{args 1 .N}})
+		c.Result(string(got), want)
+		{{reuse . "string(uf($ALL))" "nil"}}
+	})
 }
 {{end}}
 
 {{define "as_tupled2"}}{{template "site" .}}{{template "recf" .}}
-	var got Res = as.Tupled2(fp.Func2[A1, A2, Res](f))(MkTup2(a1, a2))
-	c.Result(string(got), want)
+	tf := as.Tupled2(fp.Func2[A1, A2, Res](f))
+	c.Obs(func() {
+		var got Res = tf(MkTup2(a1, a2))
+		c.Result(string(got), want)
+		{{reuse . "string(tf(MkTup2($ALL)))" "nil"}}
+	})
 }
 {{end}}
 
@@ -390,72 +515,122 @@ func {{.Fn}}{{tps .TP}}(c *Cx) {
 {{- if eq .N 0}}
 	f := func() Res { return c.Call() }
 	want := c.Want()
-	var got Res = as.Func0(f)(fp.Unit{})
+	ff := as.Func0(f)
+	c.Obs(func() {
+		var got Res = ff(fp.Unit{})
+		c.Result(string(got), want)
+	})
 {{- else}}{{template "recf" .}}
-	var got Res = as.Func{{.N}}(f)({{args 1 .N}})
+	ff := as.Func{{.N}}(f)
+	c.Obs(func() {
+		var got Res = ff({{args 1 .N}})
+		c.Result(string(got), want)
+		{{reuse . "string(ff($ALL))" "nil"}}
+	})
 {{- end}}
-	c.Result(string(got), want)
 }
 {{end}}
 
 {{define "as_supplier"}}{{template "site" .}}{{template "recf" .}}
-	var got Res = as.Supplier{{.N}}(f, {{args 1 .N}})()
-	c.Result(string(got), want)
+	s := as.Supplier{{.N}}(f, {{args 1 .N}})
+	sy := as.Supplier{{.N}}(f, {{pargs "y" 1 .N}})
+	c.Obs(func() {
+		var got Res = s()
+		c.Result(string(got), want)
+		c.Fork(c.Mark(), 0, func() string { return string(s()) }, func() string { return string(sy()) }, c.ForkVec(Pos({{.N}}), 0), c.ForkVec(Pos({{.N}}), 1), nil)
+	})
 }
 {{end}}
 
 {{define "curried_func"}}{{template "site" .}}{{template "recf" .}}
-	var got Res = curried.Func{{.N}}(f){{ccall 1 .N}}
-	c.Result(string(got), want)
+	cf := curried.Func{{.N}}(f)
+	c.Obs(func() {
+		var got Res = cf{{ccall 1 .N}}
+		c.Result(string(got), want)
+		Fork{{.N}}(c, cf, Pos({{.N}}), ShowRes, nil)
+	})
 }
 {{end}}
 
 {{define "curried_revert"}}{{template "site" .}}{{template "recf" .}}
-	var got Res = curried.Revert{{.N}}(Cur{{.N}}(f))({{args 1 .N}})
-	c.Result(string(got), want)
+	rf := curried.Revert{{.N}}(Cur{{.N}}(f))
+	c.Obs(func() {
+		var got Res = rf({{args 1 .N}})
+		c.Result(string(got), want)
+		{{reuse . "string(rf($ALL))" "nil"}}
+	})
 }
 {{end}}
 
 {{define "curried_flip"}}{{template "site" .}}{{template "recf" .}}
-	var got Res = {{.Call}}(Cur{{.N}}(f)){{ccall 2 .N}}(a1)
-	c.Result(string(got), want)
+	ff := {{.Call}}(Cur{{.N}}(f))
+	c.Obs(func() {
+		var got Res = ff{{ccall 2 .N}}(a1)
+		c.Result(string(got), want)
+		Fork{{.N}}(c, ff, PosFlip({{.N}}), ShowRes, nil)
+	})
 }
 {{end}}
 
 {{define "curried_flipapply"}}{{template "site" .}}{{template "recf" .}}
-	var got Res = {{.Call}}(Cur{{.N}}(f), {{args 2 .N}})(a1)
-	c.Result(string(got), want)
+	cf := Cur{{.N}}(f)
+	p := {{.Call}}(cf, {{args 2 .N}})
+	py := {{.Call}}(cf, {{pargs "y" 2 .N}})
+	c.Obs(func() {
+		var got Res = p(a1)
+		c.Result(string(got), want)
+		c.Fork(c.Mark(), 1, func() string { return string(p(a1)) }, func() string { return string(py(y1)) }, c.ForkVec(Pos({{.N}}), 0), c.ForkVec(Pos({{.N}}), 1), nil)
+		c.Fork(c.Mark(), 2, func() string { return string(p(y1)) }, func() string { return string(py(a1)) }, c.Mix({{.N}}, 1), c.Mix({{.N}}{{range $k := seq 2 .N}}, {{$k}}{{end}}), nil)
+	})
 }
 {{end}}
 
 {{define "curried_slipl"}}{{template "site" .}}{{template "recf" .}}
-	var got Res = curried.SlipL{{.N}}(Cur{{.N}}(f))(a{{.N}}){{ccall 1 (dec .N)}}
-	c.Result(string(got), want)
+	sf := curried.SlipL{{.N}}(Cur{{.N}}(f))
+	c.Obs(func() {
+		var got Res = sf(a{{.N}}){{ccall 1 (dec .N)}}
+		c.Result(string(got), want)
+		Fork{{.N}}(c, sf, PosSlip({{.N}}), ShowRes, nil)
+	})
 }
 {{end}}
 
 {{define "curried_compose"}}{{template "site" .}}{{template "recf" .}}
 	h := func(r Res) Res2 { return Res2("h(" + string(r) + ")") }
-	var got Res2 = curried.Compose{{.N}}(Cur{{.N}}(f), fp.Func1[Res, Res2](h)){{ccall 1 .N}}
-	c.Result(string(got), "h(" + want + ")")
+	cc := curried.Compose{{.N}}(Cur{{.N}}(f), fp.Func1[Res, Res2](h))
+	c.Obs(func() {
+		var got Res2 = cc{{ccall 1 .N}}
+		c.Result(string(got), "h(" + want + ")")
+		Fork{{.N}}(c, cc, Pos({{.N}}), ShowRes2, WrapH)
+	})
 }
 {{end}}
 
 {{define "hlist_case"}}{{template "site" .}}{{template "recf" .}}
-	var got Res = hlist.Case{{.N}}(MkHl{{.N}}({{args 1 .N}}), f)
-	c.Result(string(got), want)
+	c.Obs(func() {
+		var got Res = hlist.Case{{.N}}(MkHl{{.N}}({{args 1 .N}}), f)
+		c.Result(string(got), want)
+	})
 }
 {{end}}
 
 {{define "hlist_lift"}}{{template "site" .}}{{template "recf" .}}
-	var got Res = hlist.Lift{{.N}}(f)(MkHl{{.N}}({{args 1 .N}}))
-	c.Result(string(got), want)
+	lf := hlist.Lift{{.N}}(f)
+	c.Obs(func() {
+		var got Res = lf(MkHl{{.N}}({{args 1 .N}}))
+		c.Result(string(got), want)
+		{{reuse . (printf "string(lf(MkHl%d($ALL)))" .N) "nil"}}
+	})
 }
 {{end}}
 
 {{define "hlist_rift"}}{{template "site" .}}{{template "recf" .}}
-	var got Res = hlist.Rift{{.N}}(f)(MkHl{{.N}}({{argsr .N 1}}))
-	c.Result(string(got), want)
+	lf := hlist.Rift{{.N}}(f)
+	c.Obs(func() {
+		var got Res = lf(MkHl{{.N}}({{argsr .N 1}}))
+		c.Result(string(got), want)
+		{{reuse . (printf "string(lf(MkHl%d($REV)))" .N) "nil"}}
+	})
 }
 {{end}}
 
@@ -478,8 +653,12 @@ func {{.Fn}}{{tps .TP}}(c *Cx) {
 {{end}}
 
 {{define "product_lift"}}{{template "site" .}}{{template "recf" .}}
-	var got Res = product.Lift{{.N}}(f)(MkTup{{.N}}({{args 1 .N}}))
-	c.Result(string(got), want)
+	lf := product.Lift{{.N}}(f)
+	c.Obs(func() {
+		var got Res = lf(MkTup{{.N}}({{args 1 .N}}))
+		c.Result(string(got), want)
+		{{reuse . (printf "string(lf(MkTup%d($ALL)))" .N) "nil"}}
+	})
 }
 {{end}}
 
@@ -487,20 +666,39 @@ func {{.Fn}}{{tps .TP}}(c *Cx) {
 {{- range $k := seq 1 .N}}
 	f{{$k}} := func(x A{{$k}}) A{{inc $k}} { return A{{inc $k}}(c.Step({{$k}}, string(x))) }
 {{- end}}
-	var got A{{inc .N}} = {{.Call}}({{composeArgs .Call .N}})(a1)
-	c.Eqs("result", string(got), {{nestedSteps .N}})
+	cf := {{.Call}}({{composeArgs .Call .N}})
+	c.Obs(func() {
+		var got A{{inc .N}} = cf(a1)
+		c.Eqs("result", string(got), c.Nested({{.N}}, string(a1)))
+		c.Eqs("result-on-reuse", string(cf(y1)), c.Nested({{.N}}, string(y1)))
+		c.Eqs("result-on-reuse", string(cf(a1)), c.Nested({{.N}}, string(a1)))
+	})
 }
 {{end}}
 
 {{define "fp_applyfirst"}}{{template "site" .}}{{template "recf" .}}
-	var got Res = fp.Func{{.N}}[{{TA 1 .N}}, Res](f).ApplyFirst{{.Sfx}}({{args 1 (dec .N)}})(a{{.N}})
-	c.Result(string(got), want)
+	ff := fp.Func{{.N}}[{{TA 1 .N}}, Res](f)
+	p := ff.ApplyFirst{{.Sfx}}({{args 1 (dec .N)}})
+	py := ff.ApplyFirst{{.Sfx}}({{pargs "y" 1 (dec .N)}})
+	c.Obs(func() {
+		var got Res = p(a{{.N}})
+		c.Result(string(got), want)
+		c.Fork(c.Mark(), 1, func() string { return string(p(a{{.N}})) }, func() string { return string(py(y{{.N}})) }, c.ForkVec(Pos({{.N}}), 0), c.ForkVec(Pos({{.N}}), 1), nil)
+		c.Fork(c.Mark(), 2, func() string { return string(p(y{{.N}})) }, func() string { return string(py(a{{.N}})) }, c.Mix({{.N}}, {{.N}}), c.Mix({{.N}}{{range $k := seq 1 (dec .N)}}, {{$k}}{{end}}), nil)
+	})
 }
 {{end}}
 
 {{define "fp_applylast"}}{{template "site" .}}{{template "recf" .}}
-	var got Res = fp.Func{{.N}}[{{TA 1 .N}}, Res](f).ApplyLast{{.Sfx}}({{args 2 .N}})(a1)
-	c.Result(string(got), want)
+	ff := fp.Func{{.N}}[{{TA 1 .N}}, Res](f)
+	p := ff.ApplyLast{{.Sfx}}({{args 2 .N}})
+	py := ff.ApplyLast{{.Sfx}}({{pargs "y" 2 .N}})
+	c.Obs(func() {
+		var got Res = p(a1)
+		c.Result(string(got), want)
+		c.Fork(c.Mark(), 1, func() string { return string(p(a1)) }, func() string { return string(py(y1)) }, c.ForkVec(Pos({{.N}}), 0), c.ForkVec(Pos({{.N}}), 1), nil)
+		c.Fork(c.Mark(), 2, func() string { return string(p(y1)) }, func() string { return string(py(a1)) }, c.Mix({{.N}}, 1), c.Mix({{.N}}{{range $k := seq 2 .N}}, {{$k}}{{end}}), nil)
+	})
 }
 {{end}}
 
@@ -512,17 +710,27 @@ func {{.Fn}}{{tps .TP}}(c *Cx) {
 
 {{define "fn1_merge"}}{{template "site" .}}
 	in := A{{inc .N}}(c.V[{{inc .N}}])
+	in2 := A{{inc .N}}(c.Y[{{inc .N}}])
 {{- range $k := seq 1 .N}}
 	f{{$k}} := func(x A{{inc $.N}}) A{{$k}} { return A{{$k}}(c.Step({{$k}}, string(x))) }
 {{- end}}
+	mf := {{.Call}}({{pargs "f" 1 .N}})
+	c.Obs(func() {
 {{- if eq .Call "fn1.Merge"}}
-	g1, g2 := fn1.Merge({{pargs "f" 1 .N}})(in)
-	Eqv(c, "results", g1, A1(c.Step(1, string(in))))
-	Eqv(c, "results", g2, A2(c.Step(2, string(in))))
+		g1, g2 := mf(in)
+		Eqv(c, "results", g1, A1(c.Step(1, string(in))))
+		Eqv(c, "results", g2, A2(c.Step(2, string(in))))
+		h1, h2 := mf(in2)
+		Eqv(c, "results-on-reuse", h1, A1(c.Step(1, string(in2))))
+		Eqv(c, "results-on-reuse", h2, A2(c.Step(2, string(in2))))
 {{- else}}
-	got := {{.Call}}({{pargs "f" 1 .N}})(in)
-	c.Vec("fields", Tup{{.N}}[{{TA 1 .N}}](got){{range $k := seq 1 .N}}, c.Step({{$k}}, string(in)){{end}})
+		got := mf(in)
+		c.Vec("fields", Tup{{.N}}[{{TA 1 .N}}](got){{range $k := seq 1 .N}}, c.Step({{$k}}, string(in)){{end}})
+		got2 := mf(in2)
+		c.Vec("fields-on-reuse", Tup{{.N}}[{{TA 1 .N}}](got2){{range $k := seq 1 .N}}, c.Step({{$k}}, string(in2)){{end}})
+		c.Vec("fields-on-reuse", Tup{{.N}}[{{TA 1 .N}}](mf(in)){{range $k := seq 1 .N}}, c.Step({{$k}}, string(in)){{end}})
 {{- end}}
+	})
 }
 {{end}}
 
@@ -530,55 +738,95 @@ func {{.Fn}}{{tps .TP}}(c *Cx) {
 {{- if eq .N 0}}
 	f := func() { c.Call() }
 	c.Want()
-	var _ fp.Unit = unit.Func0(f)(fp.Unit{})
+	uf := unit.Func0(f)
+	c.Obs(func() {
+		var _ fp.Unit = uf(fp.Unit{})
+		c.Called()
+	})
 {{- else}}
 	f := func({{decl 1 .N}}) { c.Call({{xstrs 1 .N}}) }
 	c.Want({{strs 1 .N}})
-	var _ fp.Unit = unit.Func{{.N}}(f)({{args 1 .N}})
+	uf := unit.Func{{.N}}(f)
+	c.Obs(func() {
+		var _ fp.Unit = uf({{args 1 .N}})
+		c.Called()
+		{{reuse . "UnitS(uf($ALL))" "WrapUnit"}}
+	})
 {{- end}}
-	c.Called()
 }
 {{end}}
 
 {{define "m_lifta"}}{{template "site" .}}{{template "recf" .}}
-	var got {{.M.Ty}}[Res] = {{.Call}}(f)({{pures .M 1 .N}})
-	c.Result({{.M.Show}}(got), "{{.M.Wrap}}" + want + ")")
+	lf := {{.Call}}(f)
+	c.Obs(func() {
+		var got {{.M.Ty}}[Res] = lf({{pures .M 1 .N}})
+		c.Result({{.M.Show}}(got), "{{.M.Wrap}}" + want + ")")
+		{{reuse . (printf "%s(lf($PURES))" .M.Show) (wrapOf .M)}}
+	})
 }
 {{end}}
 
 {{define "m_liftm"}}{{template "site" .}}{{template "recfm" .}}
-	var got {{.M.Ty}}[Res] = {{.Call}}(fm)({{pures .M 1 .N}})
-	c.Result({{.M.Show}}(got), "{{.M.Wrap}}" + want + ")")
+	lf := {{.Call}}(fm)
+	c.Obs(func() {
+		var got {{.M.Ty}}[Res] = lf({{pures .M 1 .N}})
+		c.Result({{.M.Show}}(got), "{{.M.Wrap}}" + want + ")")
+		{{reuse . (printf "%s(lf($PURES))" .M.Show) (wrapOf .M)}}
+	})
 }
 {{end}}
 
 {{define "m_map"}}{{template "site" .}}{{template "recf" .}}
-	var got {{.M.Ty}}[Res] = {{.Call}}({{pures .M 1 .N}}, f)
-	c.Result({{.M.Show}}(got), "{{.M.Wrap}}" + want + ")")
+	c.Obs(func() {
+		var got {{.M.Ty}}[Res] = {{.Call}}({{pures .M 1 .N}}, f)
+		c.Result({{.M.Show}}(got), "{{.M.Wrap}}" + want + ")")
+	})
 }
 {{end}}
 
 {{define "m_flatmap"}}{{template "site" .}}{{template "recfm" .}}
-	var got {{.M.Ty}}[Res] = {{.Call}}({{pures .M 1 .N}}, fm)
-	c.Result({{.M.Show}}(got), "{{.M.Wrap}}" + want + ")")
+	c.Obs(func() {
+		var got {{.M.Ty}}[Res] = {{.Call}}({{pures .M 1 .N}}, fm)
+		c.Result({{.M.Show}}(got), "{{.M.Wrap}}" + want + ")")
+	})
 }
 {{end}}
 
 {{define "m_flap"}}{{template "site" .}}{{template "recf" .}}
-	var got {{.M.Ty}}[Res] = {{.Call}}({{.M.Pure}}(Cur{{.N}}(f))){{ccall 1 .N}}
-	c.Result({{.M.Show}}(got), "{{.M.Wrap}}" + want + ")")
+{{- if eq .N 1}}
+	ff := fp.Func1[A1, {{.M.Ty}}[Res]]({{.Call}}({{.M.Pure}}(Cur{{.N}}(f))))
+{{- else}}
+	ff := {{.Call}}({{.M.Pure}}(Cur{{.N}}(f)))
+{{- end}}
+	c.Obs(func() {
+		var got {{.M.Ty}}[Res] = ff{{ccall 1 .N}}
+		c.Result({{.M.Show}}(got), "{{.M.Wrap}}" + want + ")")
+		Fork{{.N}}(c, ff, Pos({{.N}}), {{.M.Show}}, {{wrapOf .M}})
+	})
 }
 {{end}}
 
 {{define "m_method"}}{{template "site" .}}{{template "recf" .}}
-	var got {{.M.Ty}}[Res] = {{.Call}}({{.M.Pure}}(a1), f)({{args 2 .N}})
-	c.Result({{.M.Show}}(got), "{{.M.Wrap}}" + want + ")")
+	mf := {{.Call}}({{.M.Pure}}(a1), f)
+	my := {{.Call}}({{.M.Pure}}(y1), f)
+	c.Obs(func() {
+		var got {{.M.Ty}}[Res] = mf({{args 2 .N}})
+		c.Result({{.M.Show}}(got), "{{.M.Wrap}}" + want + ")")
+		c.Fork(c.Mark(), 1, func() string { return {{.M.Show}}(mf({{args 2 .N}})) }, func() string { return {{.M.Show}}(my({{pargs "y" 2 .N}})) }, c.ForkVec(Pos({{.N}}), 0), c.ForkVec(Pos({{.N}}), 1), {{wrapOf .M}})
+		c.Fork(c.Mark(), 2, func() string { return {{.M.Show}}(mf({{pargs "y" 2 .N}})) }, func() string { return {{.M.Show}}(my({{args 2 .N}})) }, c.ForkVec(Pos({{.N}}), 2), c.Mix({{.N}}, 1), {{wrapOf .M}})
+	})
 }
 {{end}}
 
 {{define "m_flatmethod"}}{{template "site" .}}{{template "recfm" .}}
-	var got {{.M.Ty}}[Res] = {{.Call}}({{.M.Pure}}(a1), fm)({{args 2 .N}})
-	c.Result({{.M.Show}}(got), "{{.M.Wrap}}" + want + ")")
+	mf := {{.Call}}({{.M.Pure}}(a1), fm)
+	my := {{.Call}}({{.M.Pure}}(y1), fm)
+	c.Obs(func() {
+		var got {{.M.Ty}}[Res] = mf({{args 2 .N}})
+		c.Result({{.M.Show}}(got), "{{.M.Wrap}}" + want + ")")
+		c.Fork(c.Mark(), 1, func() string { return {{.M.Show}}(mf({{args 2 .N}})) }, func() string { return {{.M.Show}}(my({{pargs "y" 2 .N}})) }, c.ForkVec(Pos({{.N}}), 0), c.ForkVec(Pos({{.N}}), 1), {{wrapOf .M}})
+		c.Fork(c.Mark(), 2, func() string { return {{.M.Show}}(mf({{pargs "y" 2 .N}})) }, func() string { return {{.M.Show}}(my({{args 2 .N}})) }, c.ForkVec(Pos({{.N}}), 2), c.Mix({{.N}}, 1), {{wrapOf .M}})
+	})
 }
 {{end}}
 
@@ -586,23 +834,38 @@ func {{.Fn}}{{tps .TP}}(c *Cx) {
 {{- if eq .N 0}}
 	ft := func() (Res, error) { return c.Call(), nil }
 	want := c.Want()
-	var got {{.M.Ty}}[Res] = {{.Call}}(ft)(fp.Unit{})
+	tf := {{.Call}}(ft)
+	c.Obs(func() {
+		var got {{.M.Ty}}[Res] = tf(fp.Unit{})
+		c.Result({{.M.Show}}(got), "{{.M.Wrap}}" + want + ")")
+	})
 {{- else}}{{template "recft" .}}
-	var got {{.M.Ty}}[Res] = {{.Call}}(ft)({{args 1 .N}})
+	tf := {{.Call}}(ft)
+	c.Obs(func() {
+		var got {{.M.Ty}}[Res] = tf({{args 1 .N}})
+		c.Result({{.M.Show}}(got), "{{.M.Wrap}}" + want + ")")
+		{{reuse . (printf "%s(tf($ALL))" .M.Show) (wrapOf .M)}}
+	})
 {{- end}}
-	c.Result({{.M.Show}}(got), "{{.M.Wrap}}" + want + ")")
 }
 {{end}}
 
 {{define "m_curried"}}{{template "site" .}}{{template "recft" .}}
-	var got {{.M.Ty}}[Res] = {{.Call}}(ft){{ccall 1 .N}}
-	c.Result({{.M.Show}}(got), "{{.M.Wrap}}" + want + ")")
+	cf := {{.Call}}(ft)
+	c.Obs(func() {
+		var got {{.M.Ty}}[Res] = cf{{ccall 1 .N}}
+		c.Result({{.M.Show}}(got), "{{.M.Wrap}}" + want + ")")
+		Fork{{.N}}(c, cf, Pos({{.N}}), {{.M.Show}}, {{wrapOf .M}})
+	})
 }
 {{end}}
 
 {{define "m_builder"}}{{template "site" .}}{{template "recf" .}}
-	var got {{.M.Ty}}[Res] = {{.Call}}({{funcConv .N}}){{chain .}}
-	c.Result({{.M.Show}}(got), "{{.M.Wrap}}" + want + ")")
+	b0 := {{.Call}}({{funcConv .N}})
+	c.Obs(func() {
+		var got {{.M.Ty}}[Res] = b0{{chain .}}
+		c.Result({{.M.Show}}(got), "{{.M.Wrap}}" + want + ")")
+{{builderForks .}}	})
 }
 {{end}}
 
@@ -615,51 +878,69 @@ func {{.Fn}}{{tps .TP}}(c *Cx) {
 
 {{define "tc_eq"}}{{template "site" .}}{{template "operands" .}}
 	e := eq.Tuple{{.N}}{{inst .N}}({{insts "RecEq" true .N}})
-	c.Eqb("Eqv", e.Eqv(t1, t2), AllEq(vs, us))
-	c.Eqb("Eqv-flipped", e.Eqv(t2, t1), AllEq(us, vs))
-	c.Eqb("Eqv-same", e.Eqv(t1, MkTup{{.N}}({{args 1 .N}})), true)
-	c.Routed()
+	c.Obs(func() {
+		c.Eqb("Eqv", e.Eqv(t1, t2), c.AllEq(vs, us))
+		c.Eqb("Eqv-flipped", e.Eqv(t2, t1), c.AllEq(us, vs))
+		c.ResetComps()
+		c.Eqb("Eqv-same", e.Eqv(t1, MkTup{{.N}}({{args 1 .N}})), true)
+		c.SawAll("Eqv", {{.N}})
+		c.Routed()
+	})
 }
 {{end}}
 
 {{define "tc_ord"}}{{template "site" .}}{{template "operands" .}}
 	o := ord.Tuple{{.N}}{{inst .N}}({{insts "RecOrd" false .N}})
-	c.OrdObs(func() bool { return o.Less(t1, t2) }, func() bool { return o.Less(t2, t1) }, func() bool { return o.Eqv(t1, t2) },
-		func() int { return o.Compare(t1, t2) }, func() bool { return o.LessEq(t1, t2) }, vs, us)
-	c.Routed()
+	c.Obs(func() {
+		c.OrdObs(func() bool { return o.Less(t1, t2) }, func() bool { return o.Less(t2, t1) }, func() bool { return o.Eqv(t1, t2) },
+			func() int { return o.Compare(t1, t2) }, func() bool { return o.LessEq(t1, t2) },
+			func() int { return o.Compare(t1, MkTup{{.N}}({{args 1 .N}})) }, vs, us)
+		c.Routed()
+	})
 }
 {{end}}
 
 {{define "tc_hash"}}{{template "site" .}}{{template "operands" .}}
 	h := hash.Tuple{{.N}}{{inst .N}}({{insts "RecHash" true .N}})
-	c.Eqb("Eqv", h.Eqv(t1, t2), AllEq(vs, us))
-	c.Routed()
-	c.ResetComps()
-	h1 := h.Hash(t1)
-	c.Routed()
-	c.SawAll("Hash", {{.N}})
-	c.ResetComps()
-	c.Eqb("Hash-deterministic", h1 == h.Hash(MkTup{{.N}}({{args 1 .N}})), true)
-	if AllEq(vs, us) {
-		c.Eqb("Hash-agrees-with-Eqv", h1 == h.Hash(t2), true)
-	}
-	c.Routed()
+	c.Obs(func() {
+		c.Eqb("Eqv", h.Eqv(t1, t2), c.AllEq(vs, us))
+		c.Routed()
+		c.ResetComps()
+		h1 := h.Hash(t1)
+		c.Routed()
+		c.SawAll("Hash", {{.N}})
+		c.ResetComps()
+		c.Eqb("Hash-deterministic", h1 == h.Hash(MkTup{{.N}}({{args 1 .N}})), true)
+		if c.AllEq(vs, us) {
+			c.Eqb("Hash-agrees-with-Eqv", h1 == h.Hash(t2), true)
+		}
+		c.Routed()
+	})
 }
 {{end}}
 
 {{define "tc_monoid"}}{{template "site" .}}{{template "operands" .}}
 	_, _ = vs, us
 	m := monoid.Tuple{{.N}}{{inst .N}}({{insts "RecMon" true .N}})
-	c.Vec("Empty", Tup{{.N}}{{inst .N}}(m.Empty()), {{posCalls "Emp" .N}})
-	c.Vec("Combine", Tup{{.N}}{{inst .N}}(m.Combine(t1, t2)), {{posCalls "Cmb" .N}})
+	c.Obs(func() {
+		c.Vec("Empty", Tup{{.N}}{{inst .N}}(m.Empty()), {{posCalls "Emp" .N}})
+		c.ResetComps()
+		c.Vec("Combine", Tup{{.N}}{{inst .N}}(m.Combine(t1, t2)), {{posCalls "Cmb" .N}})
+		c.SawAll("Combine", {{.N}})
+		c.Routed()
+	})
 }
 {{end}}
 
 {{define "tc_clone"}}{{template "site" .}}
 	t1 := MkTup{{.N}}({{args 1 .N}})
 	cl := clone.Tuple{{.N}}{{inst .N}}({{insts "RecClone" true .N}})
-	c.Vec("Clone", Tup{{.N}}{{inst .N}}(cl.Clone(t1)), {{posCalls "Cln" .N}})
-	c.Routed()
+	c.Obs(func() {
+		c.ResetComps()
+		c.Vec("Clone", Tup{{.N}}{{inst .N}}(cl.Clone(t1)), {{posCalls "Cln" .N}})
+		c.SawAll("Clone", {{.N}})
+		c.Routed()
+	})
 }
 {{end}}
 `
@@ -710,6 +991,29 @@ func Rec{{$n}}{{tps $n}}(c *Cx) func({{TA 1 $n}}) Res {
 }
 {{end}}
 
+{{range $n := seq 1 9}}
+// Fork{{$n}} forks a curried function of {{$n}} applications at every level: from the partial
+// application reached by the arguments x1..x(L-1) two continuations are derived, p(xL) and
+// p(yL), both before either is finished with its own remaining arguments (rt.Fork). pos[i-1]
+// is the original position of the i-th application; x = c.V, y = c.Y at that position.
+func Fork{{$n}}[{{pargs "B" 1 $n}} Val, R any](c *Cx, cf {{curB 1 $n}}, pos []int, show func(R) string, wrap func(string) string) {
+{{- range $k := seq 1 $n}}
+	x{{$k}}, y{{$k}} := B{{$k}}(c.V[pos[{{dec $k}}]]), B{{$k}}(c.Y[pos[{{dec $k}}]])
+{{- end}}
+	p0 := cf
+{{- range $k := seq 1 (dec $n)}}
+	p{{$k}} := p{{dec $k}}(x{{$k}})
+{{- end}}
+{{- range $l := seq 1 $n}}
+	{
+		n0 := c.Mark()
+		q1, q2 := p{{dec $l}}(x{{$l}}), p{{dec $l}}(y{{$l}})
+		c.Fork(n0, {{$l}}, func() string { return show(q1{{pccall "x" (inc $l) $n}}) }, func() string { return show(q2{{pccall "y" (inc $l) $n}}) }, c.ForkVec(pos, 0), c.ForkVec(pos, {{$l}}), wrap)
+	}
+{{- end}}
+}
+{{end}}
+
 {{range $n := seq 1 10}}
 func Cur{{$n}}[{{TA 1 $n}} Val, R any](f func({{TA 1 $n}}) R) {{cur 1 $n "R"}} {
 	return {{range $k := seq 1 $n}}func(x{{$k}} A{{$k}}) {{cur (inc $k) $n "R"}} { return {{end}}f({{pargs "x" 1 $n}}){{range $k := seq 1 $n}} }{{end}}
@@ -726,6 +1030,15 @@ func buildSites() []*site {
 	add := func(s *site) {
 		if s.Pos == 0 && s.TP > 0 {
 			s.Pos = s.N
+		}
+		// the templates that apply a constructed function / a partial application a second time
+		// declare the alternative arguments y1..yN
+		switch s.Tmpl {
+		case "as_untupled", "as_tupled2", "as_func", "as_supplier", "curried_revert", "curried_flipapply", "hlist_lift", "hlist_rift",
+			"product_lift", "fp_applyfirst", "fp_applylast", "unit_func", "m_lifta", "m_liftm", "m_method", "m_flatmethod", "m_func", "m_builder":
+			s.NY = s.N
+		case "fp_compose":
+			s.NY = 1
 		}
 		out = append(out, s)
 	}
